@@ -230,6 +230,32 @@ def run_case(case: Dict[str, Any], ctx: Any) -> core.CaseResult:
                         break
                     (k, v), = e["args"].items()
                     got_c[(e.get("name"), e.get("ts"), e.get("pid"), e.get("id"), k, float(v))] += 1
+                if got_c == exp_c:
+                    # within one counter track the events follow the series' order: at an instant with several events the last one
+                    # is the value the track shows
+                    exp_seq, got_seq = collections.defaultdict(list), collections.defaultdict(list)
+                    if want_ql and r in ql:
+                        for ts, pid, s, q in zip(ql[r]["ts"].tolist(), ql[r]["pid"].tolist(), (ql[r]["id"] if "id" in ql[r].columns else ql[r]["stream"]).tolist(),
+                                                 ql[r]["queue_length"].tolist()):
+                            exp_seq[("Queue Length", pid, s)].append((ts + ld.min_ts, float(q)))
+                    if want_bw and r in bw:
+                        for ts, pid, nm, v in zip(bw[r]["ts"].tolist(), bw[r]["pid"].tolist(), bw[r]["name"].tolist(), bw[r]["memory_bw_gbps"].tolist()):
+                            exp_seq[(nm, pid, None)].append((ts + ld.min_ts, float(v)))
+                    for e in extra:
+                        (k, v), = e["args"].items()
+                        got_seq[(e.get("name"), e.get("pid"), e.get("id"))].append((e.get("ts"), float(v)))
+                    # a stable re-ordering by time is fine; the order of the events of one instant is not free
+                    def _final(seq):  # noqa: ANN001
+                        out = {}
+                        for ts, v in seq:
+                            out[ts] = v
+                        return out
+                    badtr = [(trk, [(ts, _final(got_seq[trk]).get(ts), v) for ts, v in _final(exp_seq[trk]).items() if _final(got_seq[trk]).get(ts) != v][:3])
+                             for trk in exp_seq if _final(got_seq[trk]) != _final(exp_seq[trk])]
+                    res.counters["counter_tracks_order_checked"] += len(exp_seq)
+                    if badtr:
+                        res.bad("counters-file-order", f"rank {r}, request #{n_call + 1}: within a counter track the last event of an instant differs from the series' value "
+                                f"after that instant (track, [(ts, file, series)]): {badtr[:2]}")
                 if got_c != exp_c:
                     res.bad("counters-file-series", f"rank {r}, request #{n_call + 1} ({'both' if which is None else which}, suffix {suffix!r}): counter events differ from "
                             f"the requested series at unshifted timestamps (min_ts {ld.min_ts}): {sum(got_c.values())} events in the file, {sum(exp_c.values())} expected; "
